@@ -531,6 +531,9 @@ class Exec:
             return num(1 if name == "ones" else 0)      # per-row convention (see module docstring)
         if name in ("asarray", "atleast_1d", "atleast_2d", "array", "copy", "to_device"):
             return self.expr(a[0])
+        if name == "where":
+            m, y, x = (self.num_of(self.expr(t), e) for t in a[:3])
+            return N("where", (m, y, x), x.shape if is_vec(x) else y.shape)
         if name == "isnan":
             v = self.num_of(self.expr(a[0]), e)
             return N("isnan", (v,), "BV" if is_vec(v) else "B")
